@@ -65,6 +65,21 @@ class BaseElementLocator
         element_addresses_.reserve(max_element_count, allocator);
     }
 
+    BaseElementLocator(BaseElementLocator&& other) noexcept
+        : element_addresses_(std::move(other.element_addresses_)), last_element_(other.last_element_)
+    {
+        other.last_element_ = {};
+    }
+
+    BaseElementLocator& operator=(BaseElementLocator&& other) noexcept
+    {
+        element_addresses_ = std::move(other.element_addresses_);
+        const auto last_element = other.last_element_;
+        other.last_element_ = {};
+        last_element_ = last_element;
+        return *this;
+    }
+
     friend void swap(BaseElementLocator& lhs, BaseElementLocator& rhs) noexcept
     {
         std::swap(lhs.element_addresses_, rhs.element_addresses_);
